@@ -103,7 +103,7 @@ def generate(seed, tier):
         N = L + rw.randrange(0, 3000)
     else:
         L = rw.choice([1, 1, 2, 3, 4, 5, 8, 16, 31, 32, 64, 96, rw.randrange(1, 97)])
-        K = rw.choice([1, 1, 2, 2, 3, 4, 5, 6, 8, 12])
+        K = rw.choice([1, 2, 2, 3, 3, 4, 5, 6, 8, 12])
         N = L + rw.choice([0, 0, 1, 5, rw.randrange(0, 200)])
     starts = _gen_starts(rw, N, L, K) if not huge_k else [rw.randrange(0, N - L + 1) for _ in range(K)]
     data = SC.gen_data_spec(rw, N, 2 if mode == "csd" else 1)
